@@ -189,9 +189,9 @@ func (w *c01rWorld) script(host string, lmtp bool) peers.Script {
 			case "421":
 				return peers.Err(421, [3]int{4, 4, 2}, "scripted 421 at "+stage)
 			case "450ne":
-				return &smtp.SMTPError{Code: 450, Message: "scripted 450 without enhanced code at " + stage}
+				return &smtp.SMTPError{Code: 450, EnhancedCode: smtp.NoEnhancedCode, Message: "scripted 450 without enhanced code at " + stage}
 			case "554ne":
-				return &smtp.SMTPError{Code: 554, Message: "scripted 554 without enhanced code at " + stage}
+				return &smtp.SMTPError{Code: 554, EnhancedCode: smtp.NoEnhancedCode, Message: "scripted 554 without enhanced code at " + stage}
 			case "552":
 				return peers.Err(552, [3]int{5, 3, 4}, "scripted 552 at "+stage)
 			case "5":
